@@ -10,6 +10,7 @@ package main
 //   nk <W> <k> <sparse> <hexseq>      NewKmerMap[UintW](nil, k, sparse, -1).NormalizedKmerSlice + KmerAsString
 //   g <k> <hexseq>:<count> ...        MakeDeBruijnGraph(k), Push each read, nodes/weights/Nexts/Previouses,
 //                                     HasCycle, HaviestPath, LongestConsensus(id, 0)
+//   conc <g> <r> | <sub-case> | ...   the operations above from g goroutines at the same time (c19_conc.go)
 // Results are described next to each operation in Exec.
 
 import (
@@ -326,6 +327,7 @@ func (c19) Gen(rng *rand.Rand, tier string, emit func(string)) {
 	}
 	c19GenMore(rng, n, emit)
 	c19GenKM(rng, n, emit)
+	c19GenConc(rng, tier, emit) // last: the cases above keep their PRNG draws
 }
 
 // one random graph case: k, reads derived from a template, counts
@@ -475,6 +477,12 @@ func (c19) Exec(c string) (string, []Fail) {
 		fails = append(fails, Fail{Sig: sig, Text: fmt.Sprintf(format, a...)})
 	}
 	stat("op:" + f[0])
+	if f[0] == "conc" { // concurrent use (c19_conc.go): its own watchdog
+		return c19ExecConc(f)
+	}
+	if f[0] == "race" && len(f) > 1 && f[1] == "conc" { // the same through a -race build
+		return c19Race(f[1:])
+	}
 	res := guardT(20*time.Second, func() string {
 		switch {
 		// ------------------------------------------------------------------------------------
